@@ -201,13 +201,17 @@ CHECKS = {
          "around every encoding limit (each must be rejected, or be accepted and print the known answer), and the programs generated "
          "for the other properties. The dynamic half of 'every access reads or writes the variable the source names' is the closure "
          "scenario product (capturing scope x exit path x capture order) executed by the reference machine and replayed. "
+         "Compile.tla is a generative twin of compiler.rs' code generator (locals, captures, scope exits, jump patching, for / && / || / compound-assignment / "
+         "lambda / try-finally / class desugarings, constant sharing, line table): for every scenario program and every program TLC generates from Gen.tla within "
+         "the exhaustive budgets it computes the functions the compiler HAS to emit, and the exported chunks must equal them byte for byte (code, line table, "
+         "constants, arity, captures). "
          "TraceOps.tla binds the same instruction table (Opcodes.tla) to the interpreter itself: with the instruction hook on, every instruction the "
          "real VM fetches while running the repository's scripts and a sample of every scenario family must be at an offset, in a chunk and with a "
          "value-stack height that the table derives from the previous instruction of that frame (calls enter at offset 0 with arity slots, returns "
          "only from Return, landings at the handler address and height PushExcHandler recorded), on the checked and the optimised build.",
     note="The opcode effect table is transcribed from vm.rs and validated dynamically by TraceOps.tla (trace validation of every executed "
          "instruction). Jump-limit programs (64 KiB of code) go through Bytecode.tla in the thorough tier only.",
-    technique="TLA+ spec + TLC exhaustive path exploration of exported bytecode; instruction-level trace validation (TraceOps.tla); limit programs with known answers",
+    technique="TLA+ spec + TLC exhaustive path exploration of exported bytecode; compiler twin (Compile.tla) compared byte for byte with the emitted chunks; instruction-level trace validation (TraceOps.tla); limit programs with known answers",
     design="4 C04"),
  "C01": dict(
     level="model_checking",
